@@ -66,17 +66,33 @@ Definition scan_gap (s : list rune) : gap * list rune :=
     else ((if sep then GBlank else GJoin), s1)
   end.
 
+(* linebreak() itself: newlines, blanks, comment lines and line continuations *)
+Fixpoint linebreak_c (fuel : nat) (s : list rune) (acc : list (list rune)) : list (list rune) * list rune :=
+  match fuel with
+  | O => (acc, s)
+  | S f =>
+    match s with
+    | c :: r =>
+      if is_blank c || (c =? 10) then linebreak_c f r acc
+      else if c =? 35 then let '(t, rest) := span_line r in linebreak_c f rest (acc ++ [t])
+      else if c =? 92 then
+        match r with
+        | d :: r' => if d =? 10 then linebreak_c f r' acc else (acc, s)
+        | [] => (acc, s)
+        end
+      else (acc, s)
+    | [] => (acc, [])
+    end
+  end.
+
 (** after an operator that allows a line break (&& || |): linebreak(), then the token scanner;
-    [LEnded]: the scanner found a newline where a command must begin (known finding F45) *)
+    [LEnded]: the input ends where a command must begin *)
 Inductive lbres := LOk (comments : list (list rune)) (rest : list rune) | LEnded (comments : list (list rune)).
 
 Definition scan_linebreak (s : list rune) : lbres :=
-  let '(cs, s1) := linebreak (S (length s)) s [] in
-  let '(_, s2) := skip_inline s1 false in
-  match s2 with
-  | c :: r => if c =? 10 then LEnded cs
-              else if c =? 35 then LEnded cs      (* cannot happen after linebreak(), kept total *)
-              else LOk cs s2
+  let '(cs, s1) := linebreak_c (S (length s)) s [] in
+  match s1 with
+  | _ :: _ => LOk cs s1
   | [] => LEnded cs
   end.
 
@@ -236,34 +252,73 @@ Proof.
   rewrite (linebreak_lines ls _ bs rest [] Hls Hbs Hr) by (rewrite !app_length; lia). reflexivity.
 Qed.
 
-(** Where the grammar has a line break (after && || |): any number of blank or comment lines, then
-    blanks, then line continuations and blanks, are skipped; the comments are returned; the command
-    continues at the next token.  (A line continuation followed by an empty line is not of this
-    shape: known finding F45.) *)
-Theorem linebreak_layout_inert ls bs l rest :
-  forallb lline_ok ls = true -> forallb is_blank bs = true -> forallb inl_ok l = true -> token_start rest = true ->
-  match l with IBlank _ :: _ => False | _ => True end ->
-  scan_linebreak (llines_text ls ++ bs ++ inls_text l ++ rest) = LOk (llines_comments ls) rest.
+(** Where the grammar has a line break (after && || | and the other places that skip it): blanks,
+    blank lines, comment lines and line continuations, in any order and number, are skipped; the
+    comments are returned, each once and in order; the command continues at the next token. *)
+Inductive lbitem := LBl (c : rune) | LNl | LCom (t : list rune) | LCo.
+Definition lbitem_ok (i : lbitem) : bool :=
+  match i with
+  | LBl c => is_blank c
+  | LNl => true
+  | LCom t => forallb (fun c => negb (c =? 10)) t
+  | LCo => true
+  end.
+Definition lbitem_text (i : lbitem) : list rune :=
+  match i with LBl c => [c] | LNl => [10] | LCom t => 35 :: t ++ [10] | LCo => [92; 10] end.
+Definition lbitems_text (l : list lbitem) : list rune := flat_map lbitem_text l.
+Definition lbitems_comments (l : list lbitem) : list (list rune) :=
+  flat_map (fun i => match i with LCom t => [t] | _ => [] end) l.
+
+Lemma linebreak_c_stop fuel s acc : token_start s = true -> linebreak_c (S fuel) s acc = (acc, s).
 Proof.
-  intros Hls Hbs Hok Hr Hshape. unfold scan_linebreak.
-  assert (Hni : not_inline rest = true).
-  { destruct rest as [|c r]; [reflexivity|]. cbn [token_start not_inline] in *.
-    apply andb_true_iff in Hr as [H123 H4]. apply andb_true_iff in H123 as [H12 H3]. apply andb_true_iff in H12 as [H1 H2].
-    rewrite H1, H4. reflexivity. }
-  assert (Hstart : line_start (inls_text l ++ rest) = true).
-  { destruct l as [|[c|] l']; [|contradiction|reflexivity]. cbn [inls_text flat_map app].
-    destruct rest as [|c r]; [reflexivity|]. cbn [token_start line_start] in *.
-    apply andb_true_iff in Hr as [H123 H4]. exact H123. }
-  rewrite (linebreak_lines ls _ bs (inls_text l ++ rest) [] Hls Hbs Hstart) by (rewrite !app_length; lia). cbn [app].
-  rewrite (skip_inline_layout l false rest Hok Hni). destruct rest as [|c r]; [discriminate|]. cbn [token_start] in Hr.
-  apply andb_true_iff in Hr as [H123 H4]. apply andb_true_iff in H123 as [H12 H3]. apply andb_true_iff in H12 as [H1 H2].
-  apply negb_true_iff in H2, H3. rewrite H2, H3. reflexivity.
+  destruct s as [|c r]; [discriminate|]. cbn [token_start linebreak_c]. intros H.
+  apply andb_true_iff in H as [H123 H4]. apply andb_true_iff in H123 as [H12 H3]. apply andb_true_iff in H12 as [H1 H2].
+  apply negb_true_iff in H1, H2, H3. rewrite H1, H2, H3. cbn [orb].
+  destruct (c =? 92) eqn:E; [|reflexivity]. cbn [andb] in H4. destruct r as [|d r']; [reflexivity|].
+  apply negb_true_iff in H4. rewrite H4. reflexivity.
 Qed.
 
-(** Non-vacuity: "a \<nl>\t b", "a # c<nl><nl>  # d<nl> b", and the line break after an operator. *)
+Lemma linebreak_c_items l : forall fuel rest acc, forallb lbitem_ok l = true -> token_start rest = true ->
+  (length (lbitems_text l) < fuel)%nat ->
+  linebreak_c fuel (lbitems_text l ++ rest) acc = (acc ++ lbitems_comments l, rest).
+Proof.
+  induction l as [|i l IH]; intros fuel rest acc Hok Hr Hf; cbn [lbitems_text lbitems_comments flat_map app].
+  - rewrite app_nil_r. destruct fuel as [|fuel]; [cbn in Hf; lia|]. apply linebreak_c_stop, Hr.
+  - cbn [forallb] in Hok. apply andb_true_iff in Hok as [Hi Hl].
+    change (flat_map lbitem_text l) with (lbitems_text l).
+    change (flat_map (fun i0 : lbitem => match i0 with LCom t => [t] | _ => [] end) l) with (lbitems_comments l).
+    change (lbitems_text (i :: l)) with (lbitem_text i ++ lbitems_text l) in Hf. rewrite app_length in Hf.
+    destruct i as [c| |t|]; cbn [lbitem_text lbitem_ok app length] in *.
+    + destruct fuel as [|fuel]; [lia|]. cbn [linebreak_c]. rewrite Hi. cbn [orb]. apply IH; [assumption|assumption|lia].
+    + destruct fuel as [|fuel]; [lia|]. cbn [linebreak_c]. change (is_blank 10) with false. change (10 =? 10) with true. cbn [orb].
+      apply IH; [assumption|assumption|lia].
+    + destruct fuel as [|fuel]; [lia|].
+      replace (((t ++ [10]) ++ lbitems_text l) ++ rest) with (t ++ 10 :: lbitems_text l ++ rest) by (rewrite <- !app_assoc; reflexivity).
+      cbn [linebreak_c].
+      change (is_blank 35) with false. change (35 =? 10) with false. change (35 =? 35) with true. cbn [orb].
+      rewrite (span_line_comment t _ Hi).
+      rewrite app_length in Hf. cbn [length] in Hf.
+      destruct fuel as [|fuel]; [lia|]. cbn [linebreak_c]. change (is_blank 10) with false. change (10 =? 10) with true. cbn [orb].
+      rewrite (IH fuel rest (acc ++ [t]) Hl Hr) by lia. rewrite <- app_assoc. reflexivity.
+    + destruct fuel as [|fuel]; [lia|]. cbn [linebreak_c].
+      change (is_blank 92) with false. change (92 =? 10) with false. change (92 =? 35) with false. change (92 =? 92) with true.
+      change (10 =? 10) with true. cbn [orb]. cbv iota. apply IH; [assumption|assumption|lia].
+Qed.
+
+Theorem linebreak_layout_inert l rest :
+  forallb lbitem_ok l = true -> token_start rest = true ->
+  scan_linebreak (lbitems_text l ++ rest) = LOk (lbitems_comments l) rest.
+Proof.
+  intros Hok Hr. unfold scan_linebreak.
+  rewrite (linebreak_c_items l _ rest [] Hok Hr) by (rewrite app_length; lia). cbn [app].
+  destruct rest as [|c r]; [discriminate|reflexivity].
+Qed.
+
+(** Non-vacuity: "a \<nl>\t b", "a # c<nl><nl>  # d<nl> b", and the line break after an operator
+    (a continuation followed by an empty line included). *)
 Example layout_examples :
   scan_gap [32; 92; 10; 9; 32; 98] = (GBlank, [98]) /\
   scan_gap [32; 35; 32; 99; 10; 10; 32; 32; 35; 100; 10; 32; 98] = (GLine [[32; 99]; [100]], [98]) /\
   scan_linebreak [32; 35; 99; 10; 10; 9; 92; 10; 32; 98] = LOk [[99]] [98] /\
-  scan_linebreak [32; 92; 10; 10; 98] = LEnded [].
+  scan_linebreak [32; 92; 10; 10; 98] = LOk [] [98].
 Proof. vm_compute. repeat split. Qed.
